@@ -17,7 +17,11 @@ T3  monitor                   : every attempt compared byte for byte with what w
                                 a report - of the same queue or, for one source feeding TWO queues with the same metadata
                                 pointer and header value, of the other queue - is compared like any other, and the header
                                 value / metadata object the source still holds must be what was accepted
-                                (C10/shared-header-changed, C10/shared-metadata-changed)
+                                (C10/shared-header-changed, C10/shared-metadata-changed); a target that PANICS inside an
+                                attempt (recovered by dispatch: entry marked as broken) and restarts that find a leftover
+                                ID.meta.new beside the intact ID.meta: the credential scan covers every file whatever its suffix
+                                (.meta_broken, .meta.new), the per-attempt rules whatever the target was handed before it
+                                panicked, the pending rule every attempt step after such a restart
 """
 import os
 import re
@@ -89,6 +93,10 @@ def run(c):
         "headers with Bcc / Resent-Bcc / Return-Path / Received / DKIM-Signature / MIME fields in any position under a Received field added by maddy; "
         "an edge grid on top: body sizes 0, 1, 2, 4095-4097, 32767-32769, 1 MiB-1 .. 1 MiB+1 x Memory/FileBuffer x header with no field at all (blob = CRLF) / generated x six history shapes "
         "(R.attempts, R.r.attempts, all-deferred.r.attempts, atomic-deferred.partial-deferred.r.r.attempts, r.attempts, all-deferred.r at rest); "
+        "a downstream target that PANICS (panic recovery active, the production default) at Start / in its first AddRcpt / at the body stage / in the final Commit or Abort - in the first attempt served from memory "
+        "(connection state of the authenticated session attached) or from the spool, in a retry, after a restart - in 10% of the random cases and a 24-case grid, followed by restarts and attempt steps that must not take place; "
+        "restarts that find a leftover ID.meta.new of an interrupted meta-data rewrite beside the intact ID.meta (empty, one byte, a quarter, half, cut inside a recipient / at the sender string / before the closing brace / "
+        "before the final newline / inside a multi-byte character, complete) at 25% of the random restart steps and in a 60-case grid; "
         "(d) the same behind a real SMTP endpoint and pipeline over TCP (AUTH PLAIN, SMTPUTF8, REQUIRETLS, BODY=8BITMIME, TLS-Required: No header, dot-stuffed DATA, bodies above the 1 MiB spill threshold, addresses that are not valid UTF-8; "
         "10% with the queue shut down right before Commit and restarted before the first attempt; bounce pipeline attached in 80%, Bcc field from the client in 20%; the same edge grid: empty body, a lone line end, 4 KiB / 32 KiB / 1 MiB boundaries, client header = CRLF only); "
         "distinct = distinct op lines",
